@@ -265,11 +265,58 @@ theorem issue_validity_ordered (unit : Int) (i : VIn) (nb na : Int) (h : issueVa
          | contradiction
          | (injection h with h; injection h with h1 h2; omega))
 
-/-- Sign path (as the code behaves): the same check is missing — witness of an issued validity whose end
-precedes its start. -/
-theorem sign_validity_unordered_witness :
-    ∃ i nb na, signValidity 1 i = .ok (nb, na) ∧ na < nb :=
-  ⟨{ vinBase with reqTTL := 0, reqNotAfter := some 900 }, 970, 900, by rfl, by decide⟩
+/-- Sign path (sign/<role>, sign-verbatim): the validity is never empty or inverted either, and a start instant fixed
+by the role or accepted from the request is the certificate's NotBefore — the sign path computes the validity exactly
+as the issue path does. -/
+theorem sign_validity_ordered (unit : Int) (i : VIn) (nb na : Int) (h : signValidity unit i = .ok (nb, na)) :
+    nb < na := issue_validity_ordered unit i nb na h
+
+/-- a role-pinned `not_before` is the NotBefore of every certificate the role issues OR signs -/
+theorem role_not_before_honoured (unit : Int) (i : VIn) (t nb na : Int) (hr : i.roleNotBefore = some t)
+    (h : signValidity unit i = .ok (nb, na) ∨ issueValidity unit i = .ok (nb, na)) : nb = t := by
+  have h' : issueValidity unit i = .ok (nb, na) := by
+    rcases h with h | h
+    · exact h
+    · exact h
+  unfold issueValidity getNotBefore at h'
+  simp only [hr] at h'
+  split at h'
+  · contradiction
+  · split at h'
+    · contradiction
+    · split at h'
+      · contradiction
+      · injection h' with h'; injection h' with h1 _; exact h1.symm
+
+/-- **Finding F74 (repaired)**: the sign path as it was — the explicit NotBefore computed and dropped, no order check:
+a role pinning the start 12 h ahead signs a certificate valid from 30 s ago, and a validity can end before it starts. -/
+theorem sign_ignored_not_before_cex :
+    (∃ i nb na, i.roleNotBefore = some 44200 ∧ signValidityIgnoringNotBefore 1 i = .ok (nb, na) ∧ nb = 970) ∧
+    (∃ i nb na, signValidityIgnoringNotBefore 1 i = .ok (nb, na) ∧ na < nb) :=
+  ⟨⟨{ vinBase with roleNotBefore := some 44200, roleMaxTTL := 0, mountMax := 200000, issuer := some (500000, .err), reqTTL := 90000 }, 970, 91000, rfl, by rfl, rfl⟩,
+   ⟨{ vinBase with reqTTL := 0, reqNotAfter := some 900 }, 970, 900, by rfl, by decide⟩⟩
+
+/-- **CEL roles respect the issuer as well**: whatever NotAfter the role's program computes, the certificate's NotAfter
+is no later than the issuer's unless the issuer's `leaf_not_after_behavior` is `permit`; under `err` a later one is
+refused, not shortened. -/
+theorem cel_not_after_within_issuer (now na caNA out : Int) (beh : LNAB) (h : celNotAfter now na caNA beh = .ok out) :
+    (beh ≠ .permit → out ≤ caNA) ∧ (beh = .err → out = na) := by
+  unfold celNotAfter capAtIssuer at h
+  simp only at h
+  split at h
+  · cases beh <;> simp at h
+    · split at h
+      · cases h
+      · injection h with h; subst h; exact ⟨fun _ => Int.le_refl _, fun hb => by cases hb⟩
+    · subst h; exact ⟨fun hb => absurd rfl hb, fun hb => by cases hb⟩
+  · injection h with h; subst h
+    exact ⟨fun _ => by omega, fun _ => rfl⟩
+
+/-- **Finding F75 (repaired)**: what `cel/issue` did — the program's NotAfter taken as is — is the `permit` behaviour
+whatever the issuer says: a 100 h leaf under an issuer that expires in 2 h and demands `err`. -/
+theorem cel_ignoring_issuer_cex :
+    celNotAfter 0 360000 7200 .permit = .ok 360000 ∧ celNotAfter 0 360000 7200 .err = .error .naBeyondCA ∧
+    celNotAfter 0 360000 7200 .truncate = .ok 7200 := ⟨by rfl, by rfl, by rfl⟩
 
 /-- non-vacuity for the lifetime theorems: a capped, a truncated and a refused issuance -/
 example : getNotAfter vinBase = .ok 1100 := by rfl
